@@ -43,6 +43,7 @@ int main(int argc, char** argv) {
     if (cmd == "check" && pos.size() >= 2) rc = jv::run_check(pos[0], pos[1], seed, workers);
     else if (cmd == "replay" && pos.size() >= 1) rc = jv::run_replay(pos[0], verbose);
     else if (cmd == "selftest") rc = jv::run_selftest(seed, n);
+    else if (cmd == "twice" && pos.size() >= 1) rc = jv::run_twice(pos[0], seed, rep, view);
     else if (cmd == "one" && pos.size() >= 1) rc = jv::run_one(pos[0], seed, rep, view, verbose);
     else usage();
     fflush(stdout); fflush(stderr); _exit(rc);
